@@ -93,6 +93,7 @@ fn io_families() -> Vec<(&'static str, String)> {
         ("channel_send_recv", "do { sender, receiver } = channel A\ndo _ = send sender (build {N} A)\nlet junk = build {N} A\ndo _ = send sender (build 2 A)\ndo a = recv receiver\nlet junk2 = build {N} A\ndo b = recv receiver\nwrap (sum (val a) 0 #Int+ sum (val b) 0)"),
         ("green_thread_parent_values", "let xs = build {N} A\ndo { sender, receiver } = channel 0\ndo t = spawn (\n        do _ = wrap ()\n        let mine = build 3 xs\n        let _ = yield ()\n        do _ = send sender (sum mine 0)\n        let _ = yield ()\n        do _ = send sender (sum xs 0)\n        wrap ())\ndo _ = resume t\nlet junk = build {N} A\ndo _ = resume t\nlet junk2 = build {N} A\ndo _ = resume t\ndo a = recv receiver\ndo b = recv receiver\nlet v r =\n    match r with\n    | Ok x -> x\n    | Err _ -> -1\nwrap (v a #Int+ v b #Int+ sum junk 0 #Int+ sum junk2 0)"),
         ("green_thread_child_allocates", "do { sender, receiver } = channel A\ndo t = spawn (\n        do _ = wrap ()\n        let mine = build {N} A\n        do _ = send sender mine\n        let _ = yield ()\n        let more = build {N} mine\n        do _ = send sender more\n        wrap ())\ndo _ = resume t\ndo a = recv receiver\nlet junk = build {N} A\ndo _ = resume t\ndo b = recv receiver\nwrap (sum (val a) 0 #Int+ sum (val b) 0)"),
+        ("green_grandchild_holds_root_values", "let xs = build {N} A\ndo { sender, receiver } = channel 0\ndo t = spawn (\n        do _ = wrap ()\n        let mid = build 2 xs\n        do g = spawn (\n                do _ = wrap ()\n                let mine = build 3 xs\n                let _ = yield ()\n                do _ = send sender (sum mine 0 #Int+ sum mid 0)\n                wrap ())\n        do _ = resume g\n        let _ = yield ()\n        let junk = build {N} A\n        do _ = resume g\n        do _ = send sender (sum junk 0)\n        wrap ())\ndo _ = resume t\nlet junk = build {N} A\ndo _ = resume t\nlet junk2 = build {N} A\ndo a = recv receiver\ndo b = recv receiver\nlet v r =\n    match r with\n    | Ok x -> x\n    | Err _ -> -1\nwrap (v a #Int+ v b #Int+ sum junk 0 #Int+ sum junk2 0)"),
         ("two_green_threads_ref", "do r = ref A\ndo t1 = spawn (\n        do _ = wrap ()\n        do _ = r <- build {N} A\n        let _ = yield ()\n        do x = load r\n        do _ = r <- C 1 x\n        wrap ())\ndo t2 = spawn (\n        do _ = wrap ()\n        do x = load r\n        do _ = r <- build 2 x\n        wrap ())\ndo _ = resume t1\ndo _ = resume t2\nlet junk = build {N} A\ndo _ = resume t1\ndo x = load r\nwrap (sum x 0)"),
         ("lazy_forced_in_green_thread", "let l = lazy (\\_ -> build {N} A)\ndo { sender, receiver } = channel 0\ndo t = spawn (\n        do _ = wrap ()\n        let a = force l\n        do _ = send sender (sum a 0)\n        wrap ())\ndo _ = resume t\nlet junk = build {N} A\nlet b = force l\ndo a = recv receiver\nlet v r =\n    match r with\n    | Ok x -> x\n    | Err _ -> -1\nwrap (v a #Int+ sum b 0)"),
         ("array_of_lists_in_ref", "do r = ref [A]\ndo _ = r <- [build {N} A, build 2 A]\nlet junk = build {N} A\ndo a = load r\ndo _ = r <- array.append a [build 1 A]\nlet junk2 = build {N} A\ndo b = load r\nwrap (array.len b #Int+ sum (array.index b 0) 0)"),
